@@ -106,6 +106,19 @@ func c16TARunOne(c *Ctx, spec *c16TASpec, idx int) *c16TARes {
 	}
 	mroPaths := []string{dir}
 	opts := TAOpts{StepBias: 0.4, StartSeparate: 0.3, MroPaths: mroPaths, SrcPath: filepath.Join(dir, "invocation.mro")}
+	if strings.HasPrefix(spec.Name, "fixed-disagreeing-splits") {
+		opts.OutsHook = func(job *TAJob, outs map[string]interface{}) {
+			switch {
+			case strings.Contains(job.Key, ".GEN_B."):
+				outs["result"] = true
+			case strings.Contains(job.Key, ".GEN2."):
+				outs["result"] = []int{9}
+			}
+		}
+		prev := syntax.GetEnforcementLevel()
+		syntax.SetEnforcementLevel(syntax.EnforceDisable)
+		defer syntax.SetEnforcementLevel(prev)
+	}
 	run, err := NewTARun(spec.Call, c.Scratch, spec.Seed, opts)
 	if err != nil {
 		res.Final = "compile-error"
@@ -171,6 +184,14 @@ func c16TARunOne(c *Ctx, spec *c16TASpec, idx int) *c16TARes {
 			if res.Sample == "" && len(f.Parts) > 0 {
 				res.Sample = n.Fqname + "/" + f.Id + ":\n" + text
 			}
+			// known finding C16-N8: the split arguments of the map call disagree in this fork
+			disagree := model != nil && n.Kind == "stage" && (len(model.Mapped) > 0 || model.ResErr != "")
+			if disagree && strings.TrimSpace(text) == "" {
+				res.Hist["stage_fork_disagreeing_splits_empty_invocation"]++
+				fail("C16:stage-fork-invocation:split-arguments-disagree",
+					"the _invocation of a stage fork whose split arguments disagree is EMPTY (resolveInputs failed, BuildCallSource failed, both errors dropped): "+model.ResErr, n, f, nil, nil)
+				continue
+			}
 			if strings.TrimSpace(text) == "" {
 				fail("C16:fork-invocation-empty", "the _invocation file is empty (BuildCallSource failed and the error was dropped)", n, f, nil, nil)
 				continue
@@ -186,6 +207,11 @@ func c16TARunOne(c *Ctx, spec *c16TASpec, idx int) *c16TARes {
 				}
 				key := "C16:fork-invocation-does-not-compile"
 				what := "the _invocation mrp recorded for the fork does not compile"
+				if disagree {
+					key = "C16:stage-fork-invocation:split-arguments-disagree"
+					what = "the _invocation of a stage fork whose split arguments disagree does not compile (a parameter left split with a null value: `map call` without a split binding)"
+					res.Hist["stage_fork_disagreeing_splits_map_call_without_split"]++
+				}
 				if n.Kind == "pipeline" && strings.Count(n.Fqname, ".") > 2 {
 					// a sub-pipeline: its fork "only sort-of forks" (stage.go): splits of
 					// enclosing map calls and run-time split sources stay unresolved
@@ -528,11 +554,111 @@ call OUTER(
 )
 `
 
+// third / fourth fixed program (audit pass 3, A13; known finding C16-N8): a map call of a STAGE with
+// two split arguments that DISAGREE at run time – the second comes from a producer that is disabled
+// (=> `other = null` in a `map call` without split: the grammar rejects it) or has another length
+// (=> resolveInputs fails, BuildCallSource fails, a 0-byte _invocation).  Run at the default
+// enforcement level, where the pipestance completes.
+const c16TAFixedDefs3 = `stage GEN_AI(
+    in  int[] what,
+    out int[] result,
+    src comp  "gen_ai",
+)
+
+stage GEN_B(
+    in  bool what,
+    out bool result,
+    src comp "gen_b",
+)
+
+stage ADD(
+    in  int what,
+    in  int other,
+    in  int konst,
+    out int result,
+    src comp "add",
+)
+
+pipeline P(
+    out int[] r,
+)
+{
+    call GEN_B(
+        what = true,
+    )
+
+    call GEN_AI as GEN2(
+        what = [
+            3,
+            4,
+        ],
+    ) using (
+        disabled = GEN_B.result,
+    )
+
+    map call ADD(
+        what  = split [
+            1,
+            2,
+        ],
+        other = split GEN2.result,
+        konst = 7,
+    )
+
+    return (
+        r = ADD.result,
+    )
+}
+`
+
+const c16TAFixedDefs4 = `stage GEN_AI(
+    in  int[] what,
+    out int[] result,
+    src comp  "gen_ai",
+)
+
+stage ADD(
+    in  int what,
+    in  int other,
+    in  int konst,
+    out int result,
+    src comp "add",
+)
+
+pipeline P(
+    out int[] r,
+)
+{
+    call GEN_AI as GEN2(
+        what = [9],
+    )
+
+    map call ADD(
+        what  = split [
+            1,
+            2,
+        ],
+        other = split GEN2.result,
+        konst = 7,
+    )
+
+    return (
+        r = ADD.result,
+    )
+}
+`
+
+const c16TAFixedCall3 = `@include "defs.mro"
+
+call P()
+`
+
 func (x *c16Runner) tierA(nprog int) {
 	c, r := x.c, x.r
-	specs := []*c16TASpec{{Name: "fixed-top-level-map-call", Defs: c16TAFixedDefs, Call: c16TAFixedCall, Seed: c.Seed, Top: "map-array"},
+	specs := []*c16TASpec{{Name: "fixed-disagreeing-splits-disabled-producer", Defs: c16TAFixedDefs3, Call: c16TAFixedCall3, Seed: c.Seed, Top: "plain"},
+		{Name: "fixed-disagreeing-splits-length", Defs: c16TAFixedDefs4, Call: c16TAFixedCall3, Seed: c.Seed, Top: "plain"}, {Name: "fixed-top-level-map-call", Defs: c16TAFixedDefs, Call: c16TAFixedCall, Seed: c.Seed, Top: "map-array"},
 		{Name: "fixed-sub-pipeline-forks", Defs: c16TAFixedDefs2, Call: c16TAFixedCall2, Seed: c.Seed, Top: "plain"}}
-	for i := 0; len(specs) < nprog+2 && i < nprog*4; i++ {
+	for i := 0; len(specs) < nprog+4 && i < nprog*4; i++ {
 		src, _ := GenProgram(c.Rng, GenOpts{})
 		defs, call, ok := c16SplitProgram(src)
 		if !ok {
@@ -596,7 +722,7 @@ func (x *c16Runner) tierA(nprog int) {
 		r.hist("TA_final_" + strings.SplitN(res.Final, ":", 2)[0])
 		if res.Final == "compile-error" {
 			r.hist("TA_program_rejected")
-			if spec.Top == "plain" || i < 2 {
+			if spec.Top == "plain" || i < 4 {
 				r.note("Tier A: generated program does not compile: %s", res.Compile)
 			}
 			continue
@@ -611,7 +737,7 @@ func (x *c16Runner) tierA(nprog int) {
 		r.Histogram["TA_forks"] += res.Forks
 		r.Histogram["TA_invocations_checked"] += res.Checked
 		r.Histogram["TA_stage_fork_args_compared"] += res.ArgsCmp
-		if i == 0 && res.Sample != "" {
+		if i == 2 && res.Sample != "" {
 			r.sample(map[string]interface{}{"tier_a_invocation": res.Sample})
 		}
 		for _, m := range res.Models {
